@@ -133,13 +133,15 @@ pub fn edits(src: &str) -> Vec<Edit> {
         if let Some(n) = next {
             let n_is_nl = n.tok == Tok::End && &src[n.start..n.end] == "\n";
             if n_is_nl && !gap.contains('#') {
-                let c = " # c é€😀 x := 1";
-                out.push(mk(splice(src, t.end, 0, c), format!("comment before the newline after token {}", i), EditKind::Neutral, t.end, 0, c.len()));
+                for c in [" # c é€😀 x := 1", "#\" ${ ; # \\"] {
+                    out.push(mk(splice(src, t.end, 0, c), format!("comment {:?} before the newline after token {}", c, i), EditKind::Neutral, t.end, 0, c.len()));
+                }
             }
         }
         if (is_cont(t) || is_end) && !gap.contains('#') {
-            let c = "# é c\n";
-            out.push(mk(splice(src, t.end, 0, c), format!("comment line after token {}", i), EditKind::Neutral, t.end, 0, c.len()));
+            for c in ["# é c\n", "# \\\n"] {
+                out.push(mk(splice(src, t.end, 0, c), format!("comment line {:?} after token {}", c, i), EditKind::Neutral, t.end, 0, c.len()));
+            }
             // c. blank line
             out.push(mk(splice(src, t.end, 0, "\n"), format!("blank line after token {}", i), EditKind::Neutral, t.end, 0, 1));
             out.push(mk(splice(src, t.end, 0, "\n\t\n  \n"), format!("blank lines after token {}", i), EditKind::Neutral, t.end, 0, 6));
@@ -216,6 +218,41 @@ pub fn edits(src: &str) -> Vec<Edit> {
     out
 }
 
+/// Layout edits inside the slots of interpolated strings (a slot holds an expression, so spaces,
+/// tabs and a leading line break or terminator there are layout): (variant text, description).
+pub fn slot_edits(src: &str) -> Vec<(String, String)> {
+    use crate::refm::lex::Piece;
+    let (toks, err) = lex_raw(src);
+    let mut out = vec![];
+    if err.is_some() {
+        return out;
+    }
+    for (i, t) in toks.iter().enumerate() {
+        if let Tok::Interp(ps) = &t.tok {
+            for (si, p) in ps.iter().enumerate() {
+                if let Piece::Slot { src: stext, pos } = p {
+                    let off = match pos_to_off(src, *pos) {
+                        Some(o) => o,
+                        None => continue,
+                    };
+                    if !src[off..].starts_with("${") || !src[off + 2..].starts_with(stext.as_str()) {
+                        continue;
+                    }
+                    let open = off + 2;
+                    let close = open + stext.len();
+                    for (ins, name) in [(" ", "space"), ("\t", "tab"), ("\n", "line break"), (";", "terminator"), ("  \n ", "spaces and a line break")] {
+                        out.push((splice(src, open, 0, ins), format!("{} at the start of slot {} of string token {}", name, si, i)));
+                    }
+                    for (ins, name) in [(" ", "space"), ("\t", "tab")] {
+                        out.push((splice(src, close, 0, ins), format!("{} at the end of slot {} of string token {}", name, si, i)));
+                    }
+                }
+            }
+        }
+    }
+    out
+}
+
 /// Generated programs: every construct context of C01 around a few payloads, chosen so
 /// that every token kind occurs next to every token kind the grammar permits.
 pub fn generated_corpus() -> Vec<(String, String)> {
@@ -243,6 +280,12 @@ pub fn generated_corpus() -> Vec<(String, String)> {
         "x := 1 + \"a\"\n",
         "fn g() {\nreturn 1 / 0\n}\nprint(\"pre\")\ng()\n",
         "x := 1\nx := 2\n",
+        "x := -9223372036854775807\nprint(x)\nprint(x - 1)\nprint(-9_223_372_036_854_775_807 - 1)\n",
+        "x := -9223372036854775808\nprint(x)\n",
+        "print(1 - 9223372036854775808)\n",
+        "y := 5\nprint(y -9223372036854775808)\n",
+        "a := \"A\"\nb := \"B\"\nprint($\"${$\"<${a}>\"} ${$\"<${b}>\"}\")\nprint($\"${a}${b}${a + b}\")\n",
+        "fn w(s) {\nreturn $\"[${s}]\"\n}\nx := \"X\"\nprint($\"${w(x)}${w($\"${x}${x}\")}\")\nprint($\"${undefined_in_slot}\")\n",
     ];
     for (i, e) in extra.iter().enumerate() {
         out.push((format!("hand-written adjacency program {}", i), e.to_string()));
